@@ -3,6 +3,9 @@
 import json, sys
 pid = sys.argv[1]; tag = sys.argv[2] if len(sys.argv) > 2 else 'a'
 p = [json.loads(l) for l in open('/verif/properties.jsonl') if json.loads(l)['id'] == pid][0]
+# optional: indices into the property's own list of anchored mechanisms (part of the property record), to steer later rounds to other code
+focus = [p['anchors']['mechanism'][int(i) % len(p['anchors']['mechanism'])] for i in sys.argv[3:5]]
+FOCUS = '' if not focus else ('\nThe property record names these parts of the implementation among the mechanisms it rests on; place your two changes in (or right next to) them, one each:\n' + ''.join(f"  - {m['name']} ({m['where']})\n" for m in focus))
 wt = f'/tmp/seed-{pid}-{tag}'
 print(f'''You are helping to evaluate a verification effort for the Python finite element library nutils (evalf/nutils). Your job is to play the role of a developer who introduces a subtle regression.
 
@@ -15,7 +18,7 @@ and work in {wt} (source in {wt}/src/nutils, tests in {wt}/tests). Never edit an
 The property ({pid}): "{p['title']}"
 Statement: {p['statement']}
 It is meant to hold: {p['quantifier']['text']}
-
+{FOCUS}
 Task: produce TWO independent, different changes to the library source (src/nutils/...) each of which breaks this property, while the library still imports and the existing test suite still passes. Each change should be a realistic mistake (an off-by-one, a wrong variable, a dropped condition, an "optimisation" that is wrong in a corner, two cooperating sites that each look fine alone), small (a few lines), and it must need something specific to manifest - an unusual input, a particular multi-step sequence of operations, a particular interleaving or fault point, a corner of the input space - rather than something ordinary use or the existing tests would expose at once. The two changes should be in different functions/mechanisms.
 
 For each change deliver, in the directory {wt}/seed_out/<name>/ (name = short-kebab-case):
